@@ -60,7 +60,9 @@ func genList(t *rapid.T) listCase {
 	}
 	if c.Form == "module" && rapid.IntRange(0, 4).Draw(t, "hasfilter") > 0 {
 		c.Filter = rapid.OneOf(
-			rapid.SampledFrom([]string{"^a", "1$", "dc1", "^[a-m]", `\.example\.org$`, ":2222$", `^10\.`, "a|b", "(?i)DC2", ".", "", "^$", `\d+`, "[[:alpha:]]+[0-9]", "a/b", "x{2,}"}),
+			rapid.SampledFrom([]string{"^a", "1$", "dc1", "^[a-m]", `\.example\.org$`, ":2222$", `^10\.`, "a|b", "(?i)DC2", ".", "", "^$", `\d+`, "[[:alpha:]]+[0-9]", "a/b", "x{2,}",
+				// filters that match every name with an empty match, or with an empty match at some position
+				"^", "$", "x*", "(dc1)?", `\d*`, "(?i)", "^(web|db)?", "(:[0-9]+)?$", `\b`}),
 			rapid.StringMatching(`\^?[a-d0-9.]{1,3}\$?`),
 		).Filter(func(s string) bool { _, err := regexp.Compile(s); return err == nil }).Draw(t, "filter")
 		if c.Filter == "" {
